@@ -136,3 +136,59 @@ def row(prog, rep, pid, minimum=1):
     if le:
         stateless(prog, rep, rule, le, self_writes_allowed=True, what="the computation")
     rep.expect_min(rule, minimum)
+
+
+# ------------------------------------------------------------------ fresh draws
+def _self_attr_stores(fn):
+    """names X of 'self.X = ...', 'self.X += ...', 'self.X[...] = ...' in a method"""
+    import ast
+    out = set()
+    for n in ast.walk(fn.node):
+        tgts = []
+        if isinstance(n, ast.Assign):
+            tgts = n.targets
+        elif isinstance(n, (ast.AugAssign, ast.AnnAssign)):
+            tgts = [n.target]
+        for t in tgts:
+            for e in ([t] if not isinstance(t, (ast.Tuple, ast.List)) else t.elts):
+                while isinstance(e, ast.Subscript):
+                    e = e.value
+                if isinstance(e, ast.Attribute) and isinstance(e.value, ast.Name) and e.value.id == "self":
+                    out.add(e.attr)
+    return out
+
+
+def fresh_draw(prog, rep, rule, base=f"{JM}.MultivariateModel"):
+    """A model's draw_sample(n) draws n new points on every call: it reads no attribute that a method other than the
+    constructor (or a fit) writes - a remembered sample has the length of an earlier request, not of this one."""
+    import ast
+    root = prog.cls(base)
+    n = 0
+    for ci in prog.subclasses(root):
+        fn = ci.methods.get("draw_sample")
+        if fn is None or not fn.body:
+            continue
+        if all(isinstance(s, (ast.Pass, ast.Expr, ast.Raise)) for s in fn.body):
+            continue  # abstract declaration
+        rep.analysed(fn)
+        lazy = {}
+        for c in ci.mro:
+            for name, m in c.methods.items():
+                if name in ("__init__", "fit") or name.startswith("_fit") or m is fn:
+                    continue
+                for a in _self_attr_stores(m):
+                    lazy.setdefault(a, m.qualname)
+        reads = {}
+        for x in ast.walk(fn.node):
+            if isinstance(x, ast.Attribute) and isinstance(x.ctx, ast.Load) and isinstance(x.value, ast.Name) and x.value.id == "self" and x.attr in lazy:
+                reads.setdefault(x.attr, x)
+        n += 1
+        if reads:
+            for a, node in sorted(reads.items()):
+                rep.fail(rule, f"{fn.qualname}:self.{a}", fn.where(node),
+                         f"draw_sample reads self.{a}, which {lazy[a]} writes between calls: the returned sample then depends on an earlier request "
+                         "(its length, its values) instead of being n new points")
+        else:
+            rep.ok(rule, fn.qualname, fn.where(), "reads only what the constructor / fit set: every call draws anew")
+    rep.expect_min(rule, 2)
+    return n
